@@ -12,5 +12,5 @@ engine/build_lib.sh $out/lib -O0 -g $DEFS
 for x in $EXCLUDE; do rm -f $out/lib/$x.o; done
 gcc -O1 -g -w -Iengine/unitmc -c engine/unitmc/unitmc.c -o $out/unitmc.o
 gcc -O0 -g -w -fsanitize=thread -D_GNU_SOURCE -D_XOPEN_SOURCE -D_DARWIN_C_SOURCE -DMYTH_WRAP=MYTH_WRAP_VANILLA $DEFS -DREPO_SRC=\"$R/src\" \
-    -I$R/include -I$R/src -Iengine/unitmc -Iengine/seqmc -Iharness ${E2_FLAGS} -c $src -o $out/harness.o
+    -I$R/include -I$R/src -Iengine/fallback -Iengine/unitmc -Iengine/seqmc -Iharness ${E2_FLAGS} -c $src -o $out/harness.o
 gcc -o $out/$name $out/harness.o $out/unitmc.o $out/lib/*.o -lpthread -ldl
